@@ -59,6 +59,37 @@ Theorem realizable_fusion_iff : forall xd bp xa bp' p,
 Proof. exact realizable_fusion_iff_lemma. Qed.
 Print Assumptions realizable_fusion_iff.
 
+(* ---- fusion transcripts, arbitrary breakpoints: intronic breakpoints retain the intronic piece next to them
+   (mid); records inside the retained pieces (mvars); the open last peptide is permitted only when the
+   acceptor's 3' end is complete (fusion_tail).  The harness uses THESE deciders; exonic = empty pieces. ---- *)
+Theorem fuse_gen_backbone : forall xd bp mid mvars xa bp',
+  in_tx (fuse_gen xd bp mid mvars xa bp') =
+  firstn (Z.to_nat bp) (in_tx xd) ++ mid ++ skipn (Z.to_nat bp') (in_tx xa).
+Proof. exact fuse_gen_backbone_lemma. Qed.
+Print Assumptions fuse_gen_backbone.
+
+Theorem fuse_gen_records : forall xd bp mid mvars xa bp' v,
+  In v (in_vars (fuse_gen xd bp mid mvars xa bp')) <->
+  (In v (in_vars xd) /\ v_e v <= bp) \/
+  (exists w, In w mvars /\ v = move bp w) \/
+  (exists w, In w (in_vars xa) /\ bp' <= v_s w /\ v = move (bp + zlen mid - bp') w).
+Proof. exact fuse_gen_records_lemma. Qed.
+Print Assumptions fuse_gen_records.
+
+Theorem fuse_gen_exonic : forall xd bp xa bp', fuse_gen xd bp [] [] xa bp' = fuse xd bp xa bp'.
+Proof. exact fuse_gen_exonic_lemma. Qed.
+Print Assumptions fuse_gen_exonic.
+
+Theorem realizable_fusion_g_iff : forall xd bp mid mvars xa bp' p,
+  realizable_fusion_g xd bp mid mvars xa bp' p = true <->
+  let x := fuse_gen xd bp mid mvars xa bp' in
+  MayProductT x (fusion_tail x) [] p \/
+  exists m, length m = length (in_vars x) /\
+    let h := select m (in_vars x) in
+    nonempty h = true /\ pairwise false h = true /\ MayProductT x (fusion_tail x) h p.
+Proof. exact realizable_fusion_g_iff_lemma. Qed.
+Print Assumptions realizable_fusion_g_iff.
+
 (* ---- the retry clause: faithful model (Level F) of call_variant_peptide.caller_reducer, Model/Retry.v ---- *)
 
 (* If every attempt times out, the loop ends in ValueError after at most
